@@ -49,7 +49,12 @@ func judgeURL(c *Ctx, k urlCase) {
 		r.Violate("C16|"+op+"|error|", op+" fails for non-empty issuer/account/secret", "url", k, "a URL", fmt.Sprint(err))
 		return
 	}
-	text := u.String()
+	var text string
+	if p := monCatch(func() { text = u.String() }); p != nil {
+		// the standard library cannot even render the returned value (e.g. its strings changed under it)
+		r.Violate("C16|"+op+"|returned-url-unusable|", "rendering the returned URL with (*url.URL).String panics", "url", k, "a URL text", panicStr(p))
+		return
+	}
 	r.Nontrivial("u|" + mustJSON(k))
 	wantDigits := int(k.Digits)
 	if wantDigits == 0 {
@@ -247,6 +252,74 @@ func c16Cases(c *Ctx, emit func(urlCase)) {
 	}
 }
 
+// c16Retained: a sequential history in which each generated URL is kept by the caller and rendered / parsed only
+// after later calls (other URL generations with different parameters, OCRA and HOTP calls): the late rendering must
+// still round-trip to the parameters it was generated from.
+func c16Retained(c *Ctx, cases []urlCase) {
+	if len(cases) == 0 {
+		return
+	}
+	r := c.R
+	rng := c.RNG.Fork(1616)
+	type kept struct {
+		u    *url.URL
+		k    urlCase
+		text string
+	}
+	var ring []kept
+	suite := toCfg(ref.Suite{Raw: "OCRA-1:HOTP-SHA512-8:QH10-PSHA512-S", Hash: ref.SHA512, Digits: 8, Q: true, Challenge: ref.QH10, P: true, PasswordHash: ref.PSHA512, S: true})
+	oin := otp.OCRAInput{Challenge: []byte("\xff\xfe\xfd\xfc\xfb"), Password: make([]byte, 64), SessionInfo: []byte("otpauth://totp/X:y?secret=ZZZZZZZZ&digits=1")}
+	for i := 0; i < c.N(20000, 300000); i++ {
+		k := cases[rng.Intn(len(cases))]
+		if k.Issuer == "" || k.Account == "" || k.Secret == "" || k.Algo > 2 || (k.Digits != 0 && (k.Digits < 1 || k.Digits > 10)) {
+			continue
+		}
+		p := otp.URLParam{Issuer: k.Issuer, AccountName: k.Account, Secret: k.Secret, Digits: otp.Digits(k.Digits), Algorithm: otp.Algorithm(k.Algo), Period: uint(k.Period)}
+		var u *url.URL
+		var err error
+		var text string
+		if monCatch(func() {
+			if k.Kind == "totp" {
+				u, err = otp.GenerateTOTPURL(p)
+			} else {
+				u, err = otp.GenerateHOTPURL(p)
+			}
+			if err == nil && u != nil {
+				text = u.String()
+			}
+		}) != nil || err != nil || u == nil {
+			continue // judged by the round-trip case
+		}
+		ring = append(ring, kept{u, k, text})
+		if i%3 == 0 {
+			monCatch(func() { otp.GenerateOCRA("GEZDGNBVGY3TQOJQGEZDGNBVGY3TQOJQ", suite, oin) })
+		}
+		if i%5 == 0 {
+			monCatch(func() { otp.GenerateHOTP("GEZDGNBVGY3TQOJQ", uint64(i), nil) })
+		}
+		if len(ring) < 8 {
+			continue
+		}
+		old := ring[rng.Intn(len(ring)-1)]
+		ring = ring[1:]
+		var late string
+		pan := monCatch(func() { late = old.u.String() })
+		r.Eval(1)
+		if pan != nil || late != old.text {
+			r.Violate("C16|Generate"+strings.ToUpper(old.k.Kind)+"URL|returned-url-changes-after-later-calls|", "a URL kept by the caller renders differently after later calls", "url", old.k, old.text, fmt.Sprintf("%s panic=%v", late, pan))
+			continue
+		}
+		var back *otp.URLParam
+		var perr error
+		if monCatch(func() { back, perr = otp.ParseOTPAuthURL(old.u) }) == nil && perr == nil && back != nil {
+			if back.Issuer != old.k.Issuer || back.AccountName != old.k.Account || back.Secret != old.k.Secret {
+				r.Violate("C16|ParseOTPAuthURL|retained-url-roundtrip|", "parsing a retained URL after later calls does not return what it was generated from", "url", old.k, fmt.Sprintf("%q %q %q", old.k.Issuer, old.k.Account, old.k.Secret), fmt.Sprintf("%q %q %q", back.Issuer, back.AccountName, back.Secret))
+			}
+		}
+		r.Count("retained_urls_rechecked", 1)
+	}
+}
+
 func c16ParseCases(c *Ctx, emit func(parseCase)) {
 	rng := c.RNG.Fork(161)
 	nums := []string{"0", "1", "6", "8", "10", "30", "255", "256", "257", "262", "511", "512", "65535", "65536", "65542", "4294967295", "4294967296", "4294967302",
@@ -270,12 +343,13 @@ func c16ParseCases(c *Ctx, emit func(parseCase)) {
 func init() {
 	register(&Prop{
 		ID: "C16",
-		Rule: "round trip: issuers (no colon), accounts and secrets drawn from Unicode incl. space % / ? # & = + @ and percent-escape look-alikes x digits 0..255 x 3 hashes x periods {0,1,29,30,31,60,2^31}; Generate{TOTP,HOTP}URL(p).String() is decoded by an independent RFC 3986 parser and by ParseOTPAuthURL(url.Parse(text)) and both must return the input; parse-only: hand-assembled URLs with digits/period texts over -2^63..2^64+, non-numeric and empty must fail or return exactly the number written; type in any letter case; " +
+		Rule: "round trip: issuers (no colon), accounts and secrets (base32 in every accepted spelling - padded, lower/mixed case, white space - or text) drawn from Unicode incl. space % / ? # & = + @ and percent-escape look-alikes x digits 0..255 x 3 hashes x periods {0,1,29,30,31,60,2^31}; Generate{TOTP,HOTP}URL(p).String() is decoded by an independent RFC 3986 parser and by ParseOTPAuthURL(url.Parse(text)) and both must return the input; parse-only: hand-assembled URLs with digits/period texts over -2^63..2^64+, non-numeric and empty must fail or return exactly the number written; type in any letter case; " +
 			"distinct_nontrivial counts distinct parameter sets round-tripped plus distinct hand-assembled URL texts",
 		Run: func(c *Ctx) {
-			b := newBatcher(c, judgeURL, 0)
+			b := newBatcher(c, judgeURL, 50)
 			c16Cases(c, b.add)
 			b.flush()
+			c16Retained(c, b.keep)
 			var ps []parseCase
 			c16ParseCases(c, func(k parseCase) { ps = append(ps, k) })
 			parallelJudge(c, ps, judgeParse)
